@@ -156,7 +156,20 @@ func RunC10(e *core.Env) int {
 			}
 		}
 	}
-	runExecBatches(e, rep, "hooks", n, 125, execmon.Job{NRandom: k, MutateHooks: true}, func(b *Batch, eo *ExecOut) {
+	runExecBatchesC(e, rep, "hooks", n, 125, execmon.Job{NRandom: k, MutateHooks: true}, corpusC10(), func(b *Batch, eo *ExecOut) {
+		// the fixed list of valid hook uses: refusing one means its hooks are never called
+		for _, c := range b.Cases {
+			if !strings.HasPrefix(c.S.ID, "kc10") {
+				continue
+			}
+			rep.Eval(1)
+			if c.Run.Exit != 0 || !Runnable(c) {
+				rep.Violate(&core.Violation{Property: "C10", Monitor: "acceptance", Symptom: "valid-hook-use-not-generated", Features: map[string]string{"case": c.S.ID}, Case: c.S.ID,
+					Detail: fmt.Sprintf("a documented use of :preprocess/:postprocess is refused or yields code that does not compile (exit %d): %s %v", c.Run.Exit, core.Trunc(c.Run.Stderr, 400), c.TypeErrs), Files: c.ReplayFiles()})
+			} else {
+				rep.Distinct("valid-corpus|" + c.S.ID)
+			}
+		}
 		// an accepted hook whose CALL does not compile hands the hook something other than what it declares
 		for _, c := range b.Cases {
 			if c.Run.Exit != 0 || len(c.TypeErrs) == 0 {
@@ -284,6 +297,35 @@ func illFittingHooks() []*scen.Scenario {
 				out = append(out, s)
 			}
 		}
+	}
+	return out
+}
+
+// corpusC10 is the fixed list of VALID hook uses that every run contains.
+func corpusC10() []*scen.Scenario {
+	var out []*scen.Scenario
+	// hooks of a package the setup file imports BLANK (it is named in notations only) and whose package
+	// clause differs from the last element of its import path
+	for _, k := range []string{"blank", "plain"} {
+		id := "kc10imp" + k
+		b := scen.NewBuilder(nil, scen.Profile{}, id, id)
+		m := &scen.Method{Name: "Hooked", Src: scen.Param{Type: "*ext.Shape"}, Dst: scen.Param{Type: "*ext.Shape"},
+			Notations: []scen.Notation{scen.N("preprocess", "hooks.Before"), scen.N("postprocess", "hooks.After")},
+			Probes: []scen.Probe{{Dst: "X", Mech: "same", DstT: "int", SrcT: "int"}, {Dst: "Y", Mech: "same", DstT: "string", SrcT: "string"}}}
+		s := b.Manual(m)
+		imp := "_ \"" + s.PkgPath() + "/hooks-v2\""
+		use := ""
+		if k == "plain" {
+			imp = "\"" + s.PkgPath() + "/hooks-v2\""
+			use = "\nvar _ = hooks.Marker\n"
+		}
+		setup := s.Files[s.Setup]
+		at := strings.Index(setup, "\npackage ")
+		eol := at + 1 + strings.Index(setup[at+1:], "\n")
+		s.Files[s.Setup] = setup[:eol+1] + "\nimport " + imp + "\n" + setup[eol+1:] + use
+		s.Files[s.PkgRel+"/hooks-v2/hooks.go"] = "package hooks\n\nimport (\n\t\"vb/ext\"\n\t\"vb/vtr\"\n)\n\nconst Marker = 1\n\n" +
+			"func Before(d, s *ext.Shape) {\n\tvtr.Enter(\"hooks.Before\", d, s)\n}\n\nfunc After(d, s *ext.Shape) {\n\tvtr.Enter(\"hooks.After\", d, s)\n}\n"
+		out = append(out, s)
 	}
 	return out
 }
